@@ -35,6 +35,7 @@
 #include <osmium/memory/buffer.hpp>
 #include <osmium/osm.hpp>
 
+#include <algorithm>
 #include <string>
 #include <tuple>
 #include <utility>
@@ -237,33 +238,55 @@ static void judge_apply(const std::string& entry, const std::vector<Obj>& o, con
                         const std::string& other_exception, bool nontrivial, const std::string& ctx) {
     count_case(nontrivial);
     if (!other_exception.empty()) { report("diff/" + entry + "/exception", "unexpected exception: " + other_exception + ctx); return; }
-    size_t first_area = o.size();
-    for (size_t i = 0; i < o.size(); ++i) if (o[i].type == 4) { first_area = i; break; }
-    size_t p = 0;   // index into the log
-    bool after_area = false;
-    for (size_t i = 0; i < o.size(); ++i) {
-        if (o[i].type == 4) {
-            if (threw_unknown_type) { ++(*g_cnt)["open_area_in_apply_diff_throws_unknown_type"]; break; }
-            after_area = true; ++(*g_cnt)["open_area_in_apply_diff_skipped"];
-            continue;
-        }
-        for (int h = 0; h < n; ++h) {
-            if (hk[h] == 1 && o[i].type != 1) continue;       // node-only handler
-            if (p >= g_log.size()) {
-                if (after_area) return;   // behaviour behind an area is left open
-                report("diff/" + entry + "/version-not-presented", "handler " + std::to_string(h) + " never saw position " + std::to_string(i) + ctx);
+    // Areas sort behind everything else, so what must be delivered is every non-area position; whether the
+    // first area then raises unknown_type (what the code does) or is skipped is left open.
+    size_t nobj = 0;
+    while (nobj < o.size() && o[nobj].type != 4) ++nobj;
+    if (nobj < o.size()) ++(*g_cnt)[threw_unknown_type ? "open_area_in_apply_diff_throws_unknown_type" : "open_area_in_apply_diff_skipped"];
+    else if (threw_unknown_type) { report("diff/" + entry + "/exception", "unknown_type thrown without an area" + ctx); return; }
+    auto index_of = [&](const DEv& e) -> long {
+        for (size_t j = 0; j < o.size(); ++j)
+            if (b ? e.curr == b->addr[j] : (e.type == o[j].type && e.id == o[j].id && e.ver == o[j].ver)) return static_cast<long>(j);
+        return -1;
+    };
+    // 1. every handler is shown every version it is interested in exactly once, in order
+    for (int h = 0; h < n; ++h) {
+        std::vector<long> want, got;
+        for (size_t i = 0; i < nobj; ++i) if (hk[h] == 0 || o[i].type == 1) want.push_back(static_cast<long>(i));
+        for (const DEv& e : g_log) if (e.h == h) got.push_back(index_of(e));
+        if (want == got) continue;
+        const std::string who = "handler " + std::to_string(h) + ctx;
+        for (long w : want) {
+            if (std::count(got.begin(), got.end(), w) == 0) {
+                const size_t i = static_cast<size_t>(w);
+                const bool first_in_buffer = b && i > 0 && b->bufidx[i] != b->bufidx[i - 1];
+                report("diff/" + entry + "/version-not-presented" + (first_in_buffer ? "/first-object-of-a-buffer" : ""), "position " + std::to_string(w) + " missing, " + who);
                 return;
             }
+        }
+        for (long g : got) {
+            if (g < 0) { report("diff/" + entry + "/unknown-object-presented", who); return; }
+            if (std::count(got.begin(), got.end(), g) > 1) { report("diff/" + entry + "/version-presented-twice", "position " + std::to_string(g) + ", " + who); return; }
+            if (std::count(want.begin(), want.end(), g) == 0) { report("diff/" + entry + "/version-presented-to-wrong-handler", "position " + std::to_string(g) + ", " + who); return; }
+        }
+        report("diff/" + entry + "/versions-not-in-order", who);
+        return;
+    }
+    // 2. for every position the handlers in argument order; 3. the right callback with the right neighbours
+    size_t p = 0;
+    for (size_t i = 0; i < nobj; ++i) {
+        for (int h = 0; h < n; ++h) {
+            if (hk[h] == 1 && o[i].type != 1) continue;       // node-only handler
             const DEv& e = g_log[p++];
-            if (e.h != h) { report("diff/" + entry + "/handlers-not-in-argument-order", "expected handler " + std::to_string(h) + " got " + std::to_string(e.h) + " at position " + std::to_string(i) + ctx); return; }
+            if (e.h != h || index_of(e) != static_cast<long>(i)) {
+                report("diff/" + entry + "/handlers-not-in-argument-order", "expected handler " + std::to_string(h) + " got " + std::to_string(e.h) + " at position " + std::to_string(i) + ctx);
+                return;
+            }
             if (e.cb != o[i].type) { report("diff/" + entry + "/wrong-callback/" + std::string(1, tchar[o[i].type]), "callback " + std::to_string(e.cb) + " at position " + std::to_string(i) + ctx); return; }
             if (!check_pos(entry, o, i, e, b, ctx)) return;
             (*g_cnt)["positions_checked"]++;
         }
     }
-    if (threw_unknown_type && first_area == o.size()) { report("diff/" + entry + "/exception", "unknown_type thrown without an area" + ctx); return; }
-    if (p != g_log.size() && !(threw_unknown_type)) report("diff/" + entry + "/version-presented-twice-or-extra", std::to_string(g_log.size() - p) + " extra callbacks" + ctx);
-    else if (p != g_log.size()) report("diff/" + entry + "/version-presented-twice-or-extra", "callbacks for objects behind the area that raised unknown_type" + ctx);
 }
 
 template <typename F>
